@@ -11,10 +11,11 @@ from typing import Any, Dict, List, Optional, Tuple
 ABSENT = ('$absent',)  # marker: remove the member
 
 # per-member alphabets (JSON values; ABSENT removes the member)
-VERSION_ALPHABET: List[Any] = [ABSENT, None, '1.0', '2', 2.0, 2, '', True, [], {}, '2.00']
+VERSION_ALPHABET: List[Any] = [ABSENT, None, '1.0', '2', 2.0, 2, '', True, [], {}, '2.00', '\ud83d', ' 2.0', '2.0 ']
 ID_ALPHABET: List[Any] = [ABSENT, None, True, False, 0, 1, -1, 1.0, 1.5, '', 'x', '1', [], {}, [1], {'a': 1},
-                          2 ** 63, 1e2]
-METHOD_ALPHABET: List[Any] = [ABSENT, None, True, 0, 1, 1.5, '', 'nosuch', [], {}, ['echo'], {'a': 1}]
+                          2 ** 63, 1e2, '\ud83d-lone-surrogate', 'x' * 300, ' x', 'e\u0301']
+METHOD_ALPHABET: List[Any] = [ABSENT, None, True, 0, 1, 1.5, '', 'nosuch', [], {}, ['echo'], {'a': 1}, '\ud83d', ' echo', 'echo ',
+                              'ech\u043e']
 PARAMS_ALPHABET: List[Any] = [ABSENT, None, True, False, 0, 1, -1, 1.5, '', 'x', [], {}, [1], {'a': 1}]
 RESULT_ALPHABET: List[Any] = [ABSENT, None, False, True, 0, 1, -1, 1.5, '', 'x', [], {}, [1], {'a': 1}]
 ERROR_ALPHABET: List[Any] = [ABSENT, None, False, True, 0, 1, '', 'x', [], {}, [1], {'code': 1}, {'message': 'm'},
@@ -206,6 +207,15 @@ def apply_resp_fault(text: Optional[str], fault: Tuple[Any, ...], request_text: 
             el['id'] = ids[fault[3] % len(ids)]
         elif mode == 'foreign':
             el['id'] = fault[3]
+            # a long string id gets a stranger that differs from it in the middle only (same head, same tail), a long
+            # integer one that differs in a middle digit
+            if isinstance(cur, str) and len(cur) >= 24:
+                mid = len(cur) // 2
+                el['id'] = cur[:mid] + ('0' if cur[mid] != '0' else '1') + cur[mid + 1:]
+            elif isinstance(cur, int) and not isinstance(cur, bool) and abs(cur) >= 10 ** 30:
+                digits = str(cur)
+                mid = len(digits) // 2
+                el['id'] = int(digits[:mid] + ('0' if digits[mid] != '0' else '1') + digits[mid + 1:])
         return _dumps(doc)
     if kind == 'batch_error':
         return _dumps({'jsonrpc': '2.0', 'id': None, 'error': {'code': fault[1], 'message': fault[2]}})
